@@ -253,7 +253,7 @@ func c04Run(c *Ctx) {
 	}
 	// 5. random compositions
 	r := c.Rand("random")
-	n := c.N(10000, 200000)
+	n := c.N(10000, 600000)
 	for k := 0; k < n; k++ {
 		g := NewPG(r, 10+r.Intn(40))
 		g.Faults = r.Intn(5) == 0
